@@ -250,6 +250,15 @@ static int check_authenticated_user_and_ip_and_options(int userid, struct query 
 	return 0;
 }
 
+/* Every request that a logged-in session gets accepted is a sign of life, not
+   only pings and data: the handshake between login and the first ping (codec
+   tests and switches, options, fragment size probes) can take more than a
+   minute on a slow or picky path, and must not cost the session its slot. */
+static void session_is_alive(int userid)
+{
+	users[userid].last_pkt = time(NULL);
+}
+
 static void send_raw(int fd, char *buf, int buflen, int user, int cmd, struct query *q)
 {
 	char packet[4096];
@@ -963,6 +972,7 @@ handle_null_request(int tun_fd, int dns_fd, struct dnsfd *dns_fds, struct query 
 			write_dns(dns_fd, q, "BADIP", 5, 'T');
 			return; /* illegal id */
 		}
+		session_is_alive(userid);
 
 		reply[0] = 'I';
 		if (q->from.ss_family == AF_INET) {
@@ -1004,6 +1014,7 @@ handle_null_request(int tun_fd, int dns_fd, struct dnsfd *dns_fds, struct query 
 			write_dns(dns_fd, q, "BADIP", 5, 'T');
 			return; /* illegal id */
 		}
+		session_is_alive(userid);
 
 		codec = b32_8to5(in[2]);
 
@@ -1045,6 +1056,7 @@ handle_null_request(int tun_fd, int dns_fd, struct dnsfd *dns_fds, struct query 
 			write_dns(dns_fd, q, "BADIP", 5, 'T');
 			return; /* illegal id */
 		}
+		session_is_alive(userid);
 
 		switch (in[2]) {
 		case 'T':
@@ -1174,6 +1186,7 @@ handle_null_request(int tun_fd, int dns_fd, struct dnsfd *dns_fds, struct query 
 			write_dns(dns_fd, q, "BADIP", 5, 'T');
 			return; /* illegal id */
 		}
+		session_is_alive(userid);
 
 		req_frag_size = ((b32_8to5(in[1]) & 1) << 10) | ((b32_8to5(in[2]) & 31) << 5) | (b32_8to5(in[3]) & 31);
 		if (req_frag_size < 2 || req_frag_size > 2047) {
@@ -1210,6 +1223,7 @@ handle_null_request(int tun_fd, int dns_fd, struct dnsfd *dns_fds, struct query 
 			write_dns(dns_fd, q, "BADIP", 5, 'T');
 			return; /* illegal id */
 		}
+		session_is_alive(userid);
 
 		max_frag_size = ((unpacked[1] & 0xff) << 8) | (unpacked[2] & 0xff);
 		if (max_frag_size < 2) {
